@@ -308,6 +308,8 @@ def _scalars(case, add):
             "Loc": B.Loc(a), "Scale": B.Scale(b), "Affine": B.Affine(a, b), "Chain(Loc,Tanh)": B.Chain([B.Loc(a), B.Tanh(())]),
             "Invert(Loc)": B.Invert(B.Loc(a)), "Loc(int)": B.Loc(jnp.arange(1)[0] + 2), "Normal": D.Normal(a, b), "StudentT": D.StudentT(3.0, a, b),
             "Uniform": D.Uniform(a - 1.0, a + b), "Exponential": D.Exponential(b), "LeakyTanh": B.LeakyTanh(2), "RQS": B.RationalQuadraticSpline(knots=2, interval=3),
+            # saved with a non-integer max_val, loaded into a skeleton built from a Python int (as the BNAF default LeakyTanh(3) is)
+            "LeakyTanh(2.5 -> int skeleton)": B.LeakyTanh(2.5 if a > 0 else 3),
         }
 
     tr = 0
@@ -320,8 +322,8 @@ def _scalars(case, add):
         except Exception as e:
             add(f"scalar-ctor:{name}|serialise|raises|{type(e).__name__}", f"{name} built from Python scalars: serialise -> deserialise into a freshly built model raised {type(e).__name__}: {str(e)[:200]}")
             ser = None
-        for dt in dts:
-            x = jnp.asarray(0.4, dt)
+        for dt, xv in [(d_, v_) for d_ in dts for v_ in (0.4, 2.2)]:
+            x = jnp.asarray(xv, dt)
             calls = {"transform_and_log_det": lambda o: o.transform_and_log_det(x), "inverse_and_log_det": lambda o: o.inverse_and_log_det(x)} \
                 if isinstance(m, B.AbstractBijection) else {"log_prob": lambda o: o.log_prob(x)}
             for cn, call in calls.items():
